@@ -41,6 +41,13 @@ def main(argv):
         except Exception:
             rc = 2
             buf.write(f"ANALYSIS-ERROR property={pid} internal error in the analyser: {traceback.format_exc(limit=3)}\n")
+        if os.environ.get("VERIF_DUMP_KEYS"):
+            import json
+            with open(os.environ["VERIF_DUMP_KEYS"], "a") as fh:
+                try:
+                    fh.write(json.dumps({"pid": pid, "rc": rc, "keys": sorted({o.key for o in chk.obligations})}) + "\n")
+                except Exception:
+                    pass
         print(f"== {pid} rc={rc}")
         out = buf.getvalue()
         if rc:
